@@ -21,6 +21,7 @@ structure Node where
   base     : Nat := 0      -- entries with index ≤ base have been compacted out of the stored log
   snapIdx  : Nat := 0      -- newest durable snapshot (0 = none)
   snapTerm : Nat := 0
+  applied  : Nat := 0      -- how far the FSM of this (incarnation of the) server has got
 deriving Repr
 
 inductive Msg
@@ -37,6 +38,8 @@ structure Ghost where
   elected : List (Nat × Nat × List Nat) := []     -- (term, leader, tallied voters)
   tl      : Nat → List Entry := fun _ => []       -- term log: the log of the leader of that term
   acks    : List (Nat × Nat × Nat) := []          -- (server, term, index): acknowledged through index
+  fsmApplied  : List (Nat × Nat × Entry) := []        -- (server, index, entry) handed to an FSM
+  fsmRestored : List (Nat × Nat × List Entry) := []   -- (server, index, content) restored into an FSM
   glogs   : List (Nat × Nat × Nat × List Entry × Bool) := []
       -- (voter, term, cand, voter's log when granting, nobody had yet won that term)
 
@@ -99,7 +102,7 @@ def handleAE (nd : Node) (t prevIdx prevTerm : Nat) (es : List Entry) (lc : Nat)
     let pre := nd1.log.take prevIdx
     let suf := nd1.log.drop prevIdx
     match stage with
-    | 0 => ({ nd1 with log := pre ++ truncSuffix suf es, commit := 0 }, false)
+    | 0 => ({ nd1 with log := pre ++ truncSuffix suf es, commit := 0, applied := 0 }, false)
     | _ => ({ nd1 with log := pre ++ mergeSuffix suf es,
                        commit := max nd1.commit (min lc (prevIdx + es.length)) }, true)
 
@@ -131,6 +134,8 @@ inductive Label
   | takeSnap (i k : Nat)
   | sendIS (i : Nat)
   | recvIS (j ldr t idx iterm : Nat)
+  | fsmApply (i : Nat)
+  | fsmRestore (i : Nat)
 
 def enabled (n : Nat) (s : Sys) : Label → Prop
   | .timeout i => i < n
@@ -153,6 +158,8 @@ def enabled (n : Nat) (s : Sys) : Label → Prop
   | .sendIS i => i < n ∧ (s.nodes i).role = .leader ∧ 1 ≤ (s.nodes i).snapIdx ∧
       (s.nodes i).snapIdx ≤ (s.nodes i).log.length
   | .recvIS j ldr t idx iterm => j < n ∧ Msg.is ldr t idx iterm ∈ s.net
+  | .fsmApply i => i < n ∧ (s.nodes i).applied < (s.nodes i).commit ∧ (s.nodes i).snapIdx ≤ (s.nodes i).applied
+  | .fsmRestore i => i < n ∧ 1 ≤ (s.nodes i).snapIdx ∧ (s.nodes i).applied < (s.nodes i).snapIdx
 
 def apply (n : Nat) (s : Sys) : Label → Sys
   | .timeout i =>
@@ -167,7 +174,7 @@ def apply (n : Nat) (s : Sys) : Label → Sys
       let nd := s.nodes i
       let t := nd.term + 1
       setNode s i { nd with term := t, voteTerm := if k = 0 then nd.voteTerm else t,
-                            role := .follower, tally := [], commit := 0 }
+                            role := .follower, tally := [], commit := 0, applied := 0 }
   | .voteReq j c t li lt stage =>
       let r := handleVote (s.nodes j) c t li lt stage
       { (setNode s j r.1) with
@@ -185,7 +192,7 @@ def apply (n : Nat) (s : Sys) : Label → Sys
                                             tl := fun u => if u = t then lg else s.ghost.tl u,
                                             acks := (i, t, lg.length) :: s.ghost.acks }
                  else s.ghost }
-  | .crash i => setNode s i { (s.nodes i) with role := .follower, tally := [], commit := 0 }
+  | .crash i => setNode s i { (s.nodes i) with role := .follower, tally := [], commit := 0, applied := 0 }
   | .dup m => { s with net := m :: s.net }
   | .append i p =>
       let nd := s.nodes i
@@ -213,6 +220,17 @@ def apply (n : Nat) (s : Sys) : Label → Sys
       { (setNode s j r.1) with
         net := if r.2 then Msg.isResp j ldr t idx :: s.net else s.net,
         ghost := if r.2 then { s.ghost with acks := (j, t, idx) :: s.ghost.acks } else s.ghost }
+  | .fsmApply i =>
+      let nd := s.nodes i
+      match nd.log[nd.applied]? with
+      | some e =>
+        { (setNode s i { nd with applied := nd.applied + 1 }) with
+          ghost := { s.ghost with fsmApplied := (i, nd.applied + 1, e) :: s.ghost.fsmApplied } }
+      | none => s
+  | .fsmRestore i =>
+      let nd := s.nodes i
+      { (setNode s i { nd with applied := nd.snapIdx }) with
+        ghost := { s.ghost with fsmRestored := (i, nd.snapIdx, nd.log.take nd.snapIdx) :: s.ghost.fsmRestored } }
 
 def Step (n : Nat) (s s' : Sys) : Prop := ∃ l, enabled n s l ∧ s' = apply n s l
 
